@@ -1149,6 +1149,10 @@ def c16_programs(tier, sd):
                     "ops": [["randomize", ["o"]], ["set", ["o", "s", "ff"], ffv], ["randomize", ["o"]], ["vsc_randomize", [["o"]]], ["set", ["o", "s", "ff"], 0],
                             ["randomize", ["o"]]] + tail[:4]})
     unsat = [E(["==", a, lit(1)]), E(["==", a, lit(2)])]
+    dbg = {"solve_fail_debug": 1}
+    out.append({"tag": "fault_unsat_debug", "desc": "unsatisfiable calls with solve_fail_debug (diagnostics path)", "prog": pr, "world": [["p", "obj", "Probe"]],
+                "ops": [["randomize", ["p"]], ["randomize_with", ["p"], unsat if False else [E(["==", a, lit(1)]), E(["==", a, lit(2)])], dbg], ["randomize", ["p"]],
+                        ["randomize_with", ["p"], [E([">", F("l", 0), lit(60)])], dbg], ["randomize", ["p"], dbg], ["randomize", ["p"]]] + tail})
     out.append({"tag": "fault_unsat", "desc": "unsatisfiable calls interleaved", "prog": pr, "world": [["p", "obj", "Probe"]],
                 "ops": [["randomize_with", ["p"], unsat], ["randomize", ["p"]], ["randomize_with", ["p"], unsat], ["list_append", ["p", "l"], 0],
                         ["randomize_with", ["p"], unsat], ["randomize", ["p"]]] + tail})
@@ -1190,7 +1194,10 @@ def c17_programs(tier, sd):
                ["randomize", ["top"]], ["set", ["top", "t"], 6], ["set", ["top", "s1", "m"], 9],
                ["randomize_with", ["top"], [E(["<", F("a"), lit(200)])]], ["vsc_randomize", [["top"]]], ["vsc_randomize", [["top", "s1"]]],
                ["vsc_randomize", [["top", "s2", "kid"]]], ["vsc_randomize", [["top", "l", 1]]], ["vsc_randomize", [["top", "s1"], ["top", "l", 0]]],
-               ["randomize_with", ["top"], [E(["==", F("a"), lit(1)]), E(["==", F("a"), lit(2)])]], ["randomize", ["top"]]]
+               ["randomize_with", ["top"], [E(["==", F("a"), lit(1)]), E(["==", F("a"), lit(2)])]], ["randomize", ["top"]],
+               # a failing direct call on a non-random sub-object, then the enclosing object
+               ["vsc_randomize_with", [["top", "s2", "kid"]], [E(["==", F("top", "s2", "kid", "p"), lit(1)]), E(["==", F("top", "s2", "kid", "p"), lit(2)])]],
+               ["randomize", ["top"]], ["vsc_randomize_with", [["top", "s1"]], [E([">", F("top", "s1", "x"), lit(255)])]], ["randomize", ["top"]]]
         out.append({"tag": "hooks", "desc": "tree s1 rand=%s s2 rand=%s list rand=%s" % (r1, r2, rl), "prog": pr,
                     "world": [["top", "obj", "Top"], ["other", "obj", "Top"]], "ops": ops})
     return out
